@@ -386,6 +386,31 @@ func c06Routes(c *C, s string) bool {
 			}
 		}
 	}
+	// one template instance that first fails after having produced output and then succeeds
+	files["/cond.tpl"] = `{% include "/dir/s.txt" %}{% if boomflag %}{{ fail() }}{% endif %}`
+	for _, viaCache := range []bool{false, true} {
+		var tpl *pongo2.Template
+		var err error
+		if viaCache {
+			tpl, err = memSet.FromCache("/cond.tpl")
+		} else {
+			tpl, err = memSet.FromFile("/cond.tpl")
+		}
+		if err != nil {
+			c.Fail("identity-via-route", D{"route": "/cond.tpl", "error": err.Error()})
+			return false
+		}
+		ctx["boomflag"] = true
+		tpl.Execute(ctx)
+		tpl.ExecuteBytes(ctx)
+		ctx["boomflag"] = false
+		out, xerr := tpl.Execute(ctx)
+		c.Eval(3)
+		if xerr != nil || out != big {
+			c.Fail("identity-via-route", D{"route": "/cond.tpl (the same compiled template failed twice before)", "file_bytes": len(big), "output_bytes": len(out), "output_head": q(truncStr(out, 200)), "file_head": q(truncStr(big, 200)), "error": errStr(xerr)})
+			return false
+		}
+	}
 	c.Cover(fmt.Sprintf("route_chunk_%d", chunk))
 	return true
 }
